@@ -355,6 +355,20 @@ func replay(path string) {
 		v = replayParsers(a.Sub, a.Replay)
 	case a.Sub == "precondition-headers":
 		v = replayPrecond(a.Replay)
+	case a.Sub == "cache-resize" || a.Sub == "sequence-map" || a.Sub == "rtcp-report-timing":
+		// short enumerations: the whole sub-check is the replay
+		r := &core.Result{Property: "C12"}
+		switch a.Sub {
+		case "cache-resize":
+			runCacheResize(r)
+		case "sequence-map":
+			runMapSequences(r)
+		default:
+			runReportTiming(r)
+		}
+		if len(r.Violations) > 0 {
+			v = &r.Violations[0]
+		}
 	case strings.HasPrefix(a.Sub, "liveness"):
 		var r struct {
 			Program string `json:"program"`
